@@ -32,7 +32,7 @@ ASSUMPTIONS = [
     "generated reader aliases are the writer's unqualified or full name (A13)",
     "reader-only fields use defaults of the exact Python type of the field (no bytes/fixed defaults: separate known mechanism)",
 ]
-N = {"quick": 48000, "thorough": 1600000}
+N = {"quick": 128000, "thorough": 2400000}
 TIME_LIMIT = {"quick": 40, "thorough": 560}
 SHARDS = 16
 REACH = {
